@@ -352,7 +352,9 @@ func TestC17(t *testing.T) {
 	})
 
 	// (b) random schedules
-	netB := func() *chainkit.Net { return chainkit.Configure(chainkit.Params{Epoch: 4, Fed: 4, Local: -1, VotePending: 3, NKeys: 5}) }
+	netB := func() *chainkit.Net {
+		return chainkit.Configure(chainkit.Params{Epoch: 4, Fed: 4, Local: -1, VotePending: 3, NKeys: 5})
+	}
 	r.Cases("schedules", r.N(32, 3200), func(c *ev.Case) {
 		net := netB()
 		g := net.NewGenesis(14, 2)
@@ -360,7 +362,7 @@ func TestC17(t *testing.T) {
 		if tr == nil {
 			return
 		}
-		fo := chainkit.FFGOpt{Byzantine: 3, VotePct: 85, EarlyVotePct: 12, GarbagePct: 10, BlockOrder: c.Index % 3, Duplicates: true, ByzExtra: 2, NodeKey: -1}
+		fo := chainkit.FFGOpt{Byzantine: 3, VotePct: 85, EarlyVotePct: 12, GarbagePct: 10, BlockOrder: c.Index % 3, Duplicates: true, ByzExtra: 2, NodeKey: -1, VotesLastDescending: c.Index%4 == 3, SkipEpochPct: []int{0, 25}[c.Index%2]}
 		steps, _ := tr.GenScheduleFFG(c.Rand, fo)
 		c.Distinct("%s|%d|%d", tr.Shape(), len(steps), fo.BlockOrder)
 		c.Journal(map[string]interface{}{"shape": tr.Shape(), "steps": len(steps)})
